@@ -160,8 +160,13 @@ where
                 Some(DateToken::Literal(ref s))
                     if { s.to_lowercase() == "bc" || s.to_lowercase() == "bce" } =>
                 {
-                    out.year = out.year.map(|x| -x + 1);
-                    Ok(())
+                    match out.year.map(|x| x.checked_neg().and_then(|x| x.checked_add(1))) {
+                        Some(None) => Err(format!("Expected year, got out of range value")),
+                        year => {
+                            out.year = year.flatten();
+                            Ok(())
+                        }
+                    }
                 }
                 x => Err(format!("Expected AD/BC or CE/BCE, got {}", ts(x))),
             },
